@@ -980,6 +980,13 @@ def used_visitor(model: Model, ctx: TermCtx, fi: FuncInfo, want_transformer: Opt
                     ci = model.classes.get(t[1])
                     if ci is not None and ci not in found:
                         found.append(ci)
+                elif isinstance(c.func.value, ast.Name) and c.func.value.id not in fa.locals and c.func.value.id not in f.params:
+                    # a module-level instance (`_worker = Cls()` at the top of the module)
+                    val = f.module.assigns.get(c.func.value.id)
+                    if isinstance(val, ast.Call) and isinstance(val.func, (ast.Name, ast.Attribute)):
+                        ci = model.lookup_target(model.resolve_dotted(f.module, None, ast.unparse(val.func)))
+                        if isinstance(ci, ClassInfo) and model.is_visitor(ci) and ci not in found:
+                            found.append(ci)
     # nested classes defined inside the unit are candidates too (instantiated through a local name)
     if not found:
         for f in unit(model, fi):
